@@ -360,7 +360,7 @@ def rel_pred(draw, depth, cfg, root="Item"):
     colls = sorted(COLLECTIONS.items())
     if not cfg.deep_owner:
         colls = [c_ for c_ in colls if len(c_[0]) < 3]
-    if depth > 0 and c >= 96:
+    if depth > 0 and c >= (90 if root == "Owner" else 96):
         return draw(echo(root, colls))
     segs, cm = draw(st.sampled_from(colls))
     return draw(lam(list(segs), cm, min(depth, 2), cfg))
@@ -374,19 +374,25 @@ def echo(draw, root, colls):
     segs, cm = draw(st.sampled_from(colls))
     names = ["x", "w", "z", "u"]
 
-    def nest(var_i, owner_segs, model, levels):
+    used = {}      # collection name -> model it was navigated from, at an enclosing level
+
+    def nest(var_i, owner_segs, model, levels, src=root):
         var = names[var_i]
+        used.setdefault(owner_segs[-1], src)
         leaf = draw(scalar_cmp([var], model, NONNULL[model]))
         op = draw(st.sampled_from(["any", "any", "all"]))
         if levels > 0 and NESTED.get(model):
-            csegs, cmodel = draw(st.sampled_from(sorted(NESTED[model].items())))
-            inner = nest(var_i + 1, [var] + list(csegs), cmodel, levels - 1)
+            cands = sorted(NESTED[model].items())
+            # prefer a collection whose name an enclosing level already used on another model
+            echoing = [c_ for c_ in cands if used.get(c_[0][-1], model) != model]
+            csegs, cmodel = draw(st.sampled_from(echoing if echoing and draw(st.integers(0, 3)) else cands))
+            inner = nest(var_i + 1, [var] + list(csegs), cmodel, levels - 1, model)
             b = ("bool", draw(st.sampled_from(["and", "or"])), leaf, inner) if draw(st.booleans()) else inner
         else:
             b = leaf
         return ("lambda", path_of(owner_segs), op, var, b)
 
-    first = nest(0, list(segs), cm, draw(st.integers(1, 3)))
+    first = nest(0, list(segs), cm, draw(st.sampled_from([1, 2, 2, 3, 3])))
     second = draw(lam(list(segs), cm, 0, RelCfg(body_to_one=False)))
     pair = (first, second) if draw(st.booleans()) else (second, first)
     return ("bool", draw(st.sampled_from(["and", "or"])), pair[0], pair[1])
